@@ -362,6 +362,21 @@ class Block:
         return "B%d" % self.id
 
 
+_BL = [None]
+
+
+def baseline_locals():
+    """{function name: [local variable names]} of the reviewed tree (sa/baseline_locals.json)."""
+    if _BL[0] is None:
+        import json
+        try:
+            with open(os.path.join(os.path.dirname(os.path.dirname(os.path.abspath(__file__))), "baseline_locals.json")) as f:
+                _BL[0] = json.load(f)
+        except OSError:
+            _BL[0] = {}
+    return _BL[0]
+
+
 class Func:
     def __init__(self, j, unit):
         self.j = j
@@ -397,6 +412,10 @@ class Func:
             self._normalise_aliases()
         except Exception:        # normalisation is an optimisation of precision, never a requirement
             self.aliases = {}
+        try:
+            self._normalise_copies()
+        except Exception:
+            pass
 
     # ------------------------------------------------------------------ element aliases
     def _normalise_aliases(self):
@@ -437,6 +456,8 @@ class Func:
 
         def copy(n):
             if isinstance(n, dict):
+                if "k" not in n:
+                    return n                # a type or reference record: shared, not renumbered
                 c = {k: copy(v) for k, v in n.items()}
                 if "n" in c:
                     fresh[0] -= 1
@@ -561,6 +582,179 @@ class Func:
                 for kk, v in n.items():
                     out[kk] = rewrite(v) if kk in ("a", "init", "cond", "callee") else v
                 return out
+            for b in self.blocks.values():
+                b.elems = [rewrite(e) for e in b.elems]
+                if b.term and b.term.get("cond") is not None:
+                    b.term["cond"] = rewrite(b.term["cond"])
+
+    # ------------------------------------------------------------------ value copies
+    SAFE_CALLS = {"fprintf", "printf", "warnx", "warn", "syslog", "strlen", "strcmp", "strncmp", "strcasecmp", "memcmp",
+                  "htons", "ntohs", "htonl", "ntohl", "format_addr", "tolower", "toupper", "time"}
+
+    def _normalise_copies(self):
+        """`int n = q->fromlen; ... f(n)` is rewritten to `f(q->fromlen)` when n is a local scalar with a single
+        definition by a side-effect-free expression, never modified or address-taken, and on no path from the
+        definition to a use is anything written that the expression reads (a variable it mentions; for expressions
+        that read memory: any store to memory or any call outside a short list of harmless library calls)."""
+        base = baseline_locals().get(self.name)
+        cand = {}
+        for l in self.locals:
+            nm = l["ref"]["name"]
+            if base is not None and nm in base:
+                continue            # a variable of the reviewed tree: the rules know it by name
+            if base is None and "$" not in nm and self.name in baseline_locals().get("*functions*", ()):
+                continue
+            if l["t"].get("k") in ("int", "bool", "enum", "ptr") and not nm.startswith("ret$"):
+                cand[l["ref"]["id"]] = {"name": nm, "defs": [], "bad": False}
+        if not cand:
+            return
+
+        def targets(x):
+            k = x.get("k")
+            if k == "Bin" and x["op"] in ASSIGN_OPS:
+                return [(sk(x["a"][0]), x["op"])]
+            if k == "Un" and x["op"] in ("post++", "post--", "pre++", "pre--", "&"):
+                return [(sk(x["a"][0]), x["op"])]
+            return []
+        for b in self.blocks.values():
+            for i, e in enumerate(b.elems):
+                for x in walk(e):
+                    if x.get("k") == "Decl":
+                        for d in x["decls"]:
+                            if d["ref"]["id"] in cand and d.get("init") is not None:
+                                cand[d["ref"]["id"]]["defs"].append((b.id, i, d["init"]))
+                    for t, op in targets(x):
+                        if t.get("k") == "Ref" and t["ref"]["id"] in cand:
+                            if op == "=":
+                                cand[t["ref"]["id"]]["defs"].append((b.id, i, x["a"][1]))
+                            else:
+                                cand[t["ref"]["id"]]["bad"] = True
+        fresh = [-5000000]
+
+        def copy(n):
+            if isinstance(n, dict):
+                if "k" not in n:
+                    return n                # a type or reference record: shared, not renumbered
+                c = {k: copy(v) for k, v in n.items()}
+                if "n" in c:
+                    fresh[0] -= 1
+                    c["n"] = fresh[0]
+                return c
+            if isinstance(n, list):
+                return [copy(v) for v in n]
+            return n
+
+        def pure(e):
+            for y in walk(e):
+                k = y.get("k")
+                if k == "Call" or k in ("StmtExpr", "Other", "Cond"):
+                    return False
+                if k == "Bin" and y["op"] in ASSIGN_OPS:
+                    return False
+                if k == "Un" and y["op"] in ("post++", "post--", "pre++", "pre--"):
+                    return False
+            return True
+        order = sorted(cand.items(), key=lambda kv: kv[1]["name"])
+        for pid, c in order:
+            if c["bad"] or len(c["defs"]) != 1:
+                continue
+            db, di, rhs = c["defs"][0]
+            r = sk(rhs)
+            if not pure(r) or r.get("k") in ("InitList", "Str"):
+                continue
+            if cval(r) is not None:
+                continue            # constants are already folded where they matter
+            fv = {y["ref"]["id"] for y in walk(r) if y.get("k") == "Ref" and y["ref"].get("rk") in ("local", "param")}
+            if pid in fv:
+                continue
+            reads_mem = any(y.get("k") in ("Mem", "Sub") or (y.get("k") == "Un" and y["op"] == "*") or
+                            (y.get("k") == "Ref" and y["ref"].get("rk") == "global") for y in walk(r))
+            dirty_at = set()
+            for b in self.blocks.values():
+                for i, e in enumerate(b.elems):
+                    if (b.id, i) == (db, di):
+                        continue
+                    for x in walk(e):
+                        for t, op in targets(x):
+                            if t.get("k") == "Ref" and t["ref"]["id"] in fv:
+                                dirty_at.add((b.id, i))
+                            elif reads_mem and t.get("k") != "Ref" and op != "&":
+                                dirty_at.add((b.id, i))
+                            elif reads_mem and t.get("k") == "Ref" and t["ref"].get("rk") == "global" and op != "&":
+                                dirty_at.add((b.id, i))
+                        if x.get("k") == "Decl":
+                            for d in x["decls"]:
+                                if d["ref"]["id"] in fv:
+                                    dirty_at.add((b.id, i))
+                        if reads_mem and x.get("k") == "Call" and x.get("fn") not in self.SAFE_CALLS:
+                            dirty_at.add((b.id, i))
+            uses = []
+            for b in self.blocks.values():
+                for i, e in enumerate(b.elems):
+                    if (b.id, i) != (db, di) and any(y.get("k") == "Ref" and y["ref"]["id"] == pid for y in walk(e)):
+                        uses.append((b.id, i))
+                if b.term and b.term.get("cond") is not None and any(
+                        y.get("k") == "Ref" and y["ref"]["id"] == pid for y in walk(b.term["cond"])):
+                    uses.append((b.id, len(b.elems)))
+            if not uses:
+                continue
+            ok = True
+            self.dominators()
+            for ub, ui in uses:
+                if not (self.dominates(db, ub) and (db != ub or di < ui)):
+                    ok = False
+                    break
+            if ok and dirty_at:
+                seen = set()
+                stack = [(db, di + 1, False)]
+                useset = set(uses)
+                while stack and ok:
+                    bid, idx, dirty = stack.pop()
+                    b = self.blocks[bid]
+                    n = len(b.elems)
+                    i = idx
+                    stop = False
+                    while i <= n:
+                        if (bid, i) == (db, di):
+                            stop = True
+                            break
+                        if (bid, i) in useset and dirty:
+                            ok = False
+                            break
+                        if i < n and (bid, i) in dirty_at:
+                            # a use inside the very element that dirties (f(n, &x)) still sees the old value
+                            dirty = True
+                        i += 1
+                    if not ok or stop:
+                        continue
+                    for s_ in b.succs:
+                        if s_ is not None and (s_, dirty) not in seen:
+                            seen.add((s_, dirty))
+                            stack.append((s_, 0, dirty))
+            if not ok:
+                continue
+            self.aliases[c["name"]] = pp(r)
+            lt = next((l["t"] for l in self.locals if l["ref"]["id"] == pid), None)
+
+            def rewrite(n):
+                if isinstance(n, list):
+                    return [rewrite(v) for v in n]
+                if not isinstance(n, dict):
+                    return n
+                k = n.get("k")
+                if k == "Decl":
+                    m = dict(n)
+                    m["decls"] = [d if d["ref"]["id"] == pid or d.get("init") is None else dict(d, init=rewrite(d["init"]))
+                                  for d in n["decls"]]
+                    return m
+                if k == "Bin" and n.get("op") == "=" and sk(n["a"][0]).get("k") == "Ref" and sk(n["a"][0])["ref"]["id"] == pid:
+                    return n
+                if k == "Ref" and n["ref"]["id"] == pid:
+                    v = copy(rhs)
+                    # the variable's own type is the type of the stored value: keep the conversion
+                    fresh[0] -= 1
+                    return {"k": "ICast", "t": lt or n.get("t"), "a": [v], "l": n.get("l"), "n": n.get("n", fresh[0])}
+                return {kk: (rewrite(v) if kk in ("a", "init", "cond", "callee") else v) for kk, v in n.items()}
             for b in self.blocks.values():
                 b.elems = [rewrite(e) for e in b.elems]
                 if b.term and b.term.get("cond") is not None:
